@@ -422,6 +422,17 @@ func (g *SymbolGraph) FindByKind(kinds ...common.SymKind) []*SymbolNode {
 	}
 
 	results = verifhook.Permute("find-by-kind", results, func(n *SymbolNode) string { return n.Id.Id() })
+
+	// The node map is iterated in random order - return a stable order so downstream consumers
+	// (reduction order, import serial assignment) are deterministic
+	slices.SortFunc(results, func(a, b *SymbolNode) int {
+		return cmp.Or(
+			strings.Compare(a.Id.Name, b.Id.Name),
+			strings.Compare(a.Id.FilePath, b.Id.FilePath),
+			cmp.Compare(a.Id.Position, b.Id.Position),
+		)
+	})
+
 	return results
 }
 
